@@ -30,6 +30,9 @@ pub enum Case {
     Shared { setup: Setup, before: Vec<Op>, file: FileSpec, sender: u16, between: Vec<Op>, tamper: Vec<u16> },
     /// group image: v2 preparation, v1 blobs
     GroupImage { w: u8, h: u8, seed: u8, tamper: Vec<u16>, v1: bool },
+    /// a group whose image is set at creation (or not) and then replaced 1..3 times: every member
+    /// decrypts the current blob with what its stored group record publishes
+    GroupImageInGroup { admin_sql: bool, member_sql: bool, with_initial: bool, replacements: u8, restart: bool },
 }
 
 fn png(w: u32, h: u32, seed: u8) -> Vec<u8> {
@@ -319,6 +322,81 @@ fn shared_inner(w: &mut World, before: &[Op], file: &FileSpec, sender: u16, betw
     Ok(())
 }
 
+fn group_image_in_group(admin_sql: bool, member_sql: bool, with_initial: bool, replacements: u8, restart: bool, rep: &mut CaseReport) -> Result<(), Failure> {
+    use crate::world::{BackendKind, Cfg, RollbackRecorder, open_client_mdk, relay_url, scratch_dir};
+    let dir = scratch_dir("c17img");
+    let kind = |sql: bool| if sql { BackendKind::Sql } else { BackendKind::Mem };
+    let open = |sql: bool, name: &str| open_client_mdk(kind(sql), Some(&dir.0.join(name)), &Cfg::default(), std::sync::Arc::new(RollbackRecorder::default())).map_err(|e| Failure::new("setup-failed", e));
+    let mut a = open(admin_sql, "admin.db")?;
+    let mut b = open(member_sql, "member.db")?;
+    let (ak, bk) = (nostr::Keys::generate(), nostr::Keys::generate());
+    let (apk, bpk) = (ak.public_key(), bk.public_key());
+    let kp = {
+        let (content, tags, _) = on_mdk!(&b, m => m.create_key_package_for_event(&bpk, vec![relay_url(0)])).map_err(|e| Failure::new("setup-failed", e.to_string()))?;
+        EventBuilder::new(Kind::MlsKeyPackage, content).tags(tags).sign_with_keys(&bk).map_err(|e| Failure::new("setup-failed", e.to_string()))?
+    };
+    let image = |i: u8| png(3 + i as u32 * 2, 4 + i as u32, 17u8.wrapping_mul(i + 1));
+    let mut current: Option<(Vec<u8>, Vec<u8>)> = None; // (plain, blob)
+    let (h0, k0, n0) = if with_initial {
+        let up = prepare_group_image_for_upload(&image(0), "image/png").map_err(|e| Failure::new("group-image-not-prepared", e.to_string()))?;
+        current = Some((image(0), up.encrypted_data.as_ref().clone()));
+        (Some(up.encrypted_hash), Some(*up.image_key.as_ref()), Some(*up.image_nonce.as_ref()))
+    } else {
+        (None, None, None)
+    };
+    let cfg = mdk_core::groups::NostrGroupConfigData::new("with image".into(), "d".into(), h0, k0, n0, vec![relay_url(0)], vec![apk]);
+    let res = on_mdk!(&a, m => m.create_group(&apk, vec![kp], cfg)).map_err(|e| Failure::new("setup-failed", e.to_string()))?;
+    let gid = res.group.mls_group_id.clone();
+    on_mdk!(&a, m => m.merge_pending_commit(&gid)).map_err(|e| Failure::new("setup-failed", e.to_string()))?;
+    let rumor = res.welcome_rumors.first().cloned().ok_or_else(|| Failure::new("setup-failed", "no welcome".to_string()))?;
+    let wl = on_mdk!(&b, m => m.process_welcome(&nostr::EventId::all_zeros(), &rumor)).map_err(|e| Failure::new("setup-failed", e.to_string()))?;
+    on_mdk!(&b, m => m.accept_welcome(&wl)).map_err(|e| Failure::new("setup-failed", e.to_string()))?;
+    let check = |who: &str, mdk: &crate::world::AnyMdk, current: &Option<(Vec<u8>, Vec<u8>)>, when: &str| -> Result<(), Failure> {
+        let Some((plain, blob)) = current else { return Ok(()) };
+        let rec = on_mdk!(mdk, m => m.get_group(&gid)).ok().flatten().ok_or_else(|| Failure::new("setup-failed", format!("{who}: no group record")))?;
+        let (Some(key), Some(nonce)) = (rec.image_key.as_ref(), rec.image_nonce.as_ref()) else {
+            return Err(Failure::new("group-image-does-not-decrypt-with-published-seed-and-nonce", format!("{who}, {when}: the stored group data publishes no seed / nonce (hash {:?})", rec.image_hash.map(hex::encode))));
+        };
+        let out = decrypt_group_image(blob, rec.image_hash.as_ref(), key, nonce)
+            .map_err(|e| Failure::new("group-image-does-not-decrypt-with-published-seed-and-nonce", format!("{who}, {when}: {e}")))?;
+        let (d, o) = (image::load_from_memory(&out), image::load_from_memory(plain));
+        match (d, o) {
+            (Ok(d), Ok(o)) if d.to_rgb8() == o.to_rgb8() => Ok(()),
+            _ => Err(Failure::new("group-image-decrypts-to-different-bytes", format!("{who}, {when}"))),
+        }
+    };
+    check("the admin", &a, &current, "after creating the group")?;
+    check("the member", &b, &current, "after joining")?;
+    for i in 1..=replacements.clamp(1, 3) {
+        let up = prepare_group_image_for_upload(&image(i), "image/png").map_err(|e| Failure::new("group-image-not-prepared", e.to_string()))?;
+        let mut upd = mdk_core::groups::NostrGroupDataUpdate::default();
+        upd.image_hash = Some(Some(up.encrypted_hash));
+        upd.image_key = Some(Some(*up.image_key.as_ref()));
+        upd.image_nonce = Some(Some(*up.image_nonce.as_ref()));
+        upd.image_upload_key = Some(Some(*up.image_upload_key.as_ref()));
+        let r = on_mdk!(&a, m => m.update_group_data(&gid, upd)).map_err(|e| Failure::new("setup-failed", e.to_string()))?;
+        on_mdk!(&a, m => m.merge_pending_commit(&gid)).map_err(|e| Failure::new("setup-failed", e.to_string()))?;
+        let _ = on_mdk!(&b, m => m.process_message(&r.evolution_event));
+        current = Some((image(i), up.encrypted_data.as_ref().clone()));
+        let when = format!("after image replacement {i}");
+        check("the admin", &a, &current, &when)?;
+        check("the member", &b, &current, &when)?;
+        rep.classes.push(format!("group-image-replaced-{i}-times"));
+    }
+    if restart {
+        for (sql, mdk, name, who) in [(admin_sql, &mut a, "admin.db", "the admin"), (member_sql, &mut b, "member.db", "the member")] {
+            if sql {
+                *mdk = open_client_mdk(BackendKind::Mem, None, &Cfg::default(), std::sync::Arc::new(RollbackRecorder::default())).map_err(|e| Failure::new("setup-failed", e))?;
+                *mdk = open(true, name)?;
+                check(who, mdk, &current, "after a restart")?;
+            }
+        }
+    }
+    rep.classes.push(format!("group-image-in-group:{}-{}", if admin_sql { "sql" } else { "mem" }, if member_sql { "sql" } else { "mem" }));
+    rep.nontrivial = true;
+    Ok(())
+}
+
 fn group_image(w_: u8, h_: u8, seed: u8, tamper: &[u16], v1: bool, rep: &mut CaseReport) -> Result<(), Failure> {
     let data = png(2 + w_ as u32 % 60, 2 + h_ as u32 % 45, seed);
     if v1 {
@@ -394,6 +472,7 @@ pub fn exec(case: &Case, mode: Mode) -> Result<CaseReport, Failure> {
     match case {
         Case::Shared { setup, before, file, sender, between, tamper } => shared(setup, before, file, *sender, between, tamper, mode, &mut rep)?,
         Case::GroupImage { w, h, seed, tamper, v1 } => group_image(*w, *h, *seed, tamper, *v1, &mut rep)?,
+        Case::GroupImageInGroup { admin_sql, member_sql, with_initial, replacements, restart } => group_image_in_group(*admin_sql, *member_sql, *with_initial, *replacements, *restart, &mut rep)?,
     }
     Ok(rep)
 }
@@ -417,7 +496,7 @@ pub fn main(args: &Args) -> i32 {
     let spec = Spec {
         id: "C17",
         level: "exploration",
-        rule: "(1) a member encrypts a generated file (PNG / JPEG made with the image crate so sniffing passes, PDF, text, audio, video, octet-stream; 0 B .. 200 KB in quick, more in thorough; file names with spaces and unicode; MIME spellings with case, parameters and blanks), announces it in a message carrying the imeta tag, then 0..n further operations happen (commits incl. races, adds, removals, deliveries in any order) and everything is offered to everyone. Every client then decrypts from the tag it stored (or from the public reference): members of the sending epoch that hold the announcement - also those removed since - get exactly the sender's plaintext (whose SHA-256 is the published hash), everybody else an error. At the sender a sample of single-bit changes of ciphertext and nonce and changes of file name, MIME type, hash and scheme version must all fail; keys for tuples differing in hash, MIME type or file name (also names differing only in ASCII case or surrounding blanks) differ. (2) group images: prepare_group_image_for_upload (v2) decrypts with the published seed and nonce to the same pixels, single-bit changes of ciphertext / seed / nonce / hash fail (with and without the pinned hash); hand-built v1 blobs decrypt through the fallback and not with another key. Non-trivial = a decryption at another epoch than the sending one, a listed excuse, or a tamper attempt; distinct = distinct cases".into(),
+        rule: "(1) a member encrypts a generated file (PNG / JPEG made with the image crate so sniffing passes, PDF, text, audio, video, octet-stream; 0 B .. 200 KB in quick, more in thorough; file names with spaces and unicode; MIME spellings with case, parameters and blanks), announces it in a message carrying the imeta tag, then 0..n further operations happen (commits incl. races, adds, removals, deliveries in any order) and everything is offered to everyone. Every client then decrypts from the tag it stored (or from the public reference): members of the sending epoch that hold the announcement - also those removed since - get exactly the sender's plaintext (whose SHA-256 is the published hash), everybody else an error. At the sender a sample of single-bit changes of ciphertext and nonce and changes of file name, MIME type, hash and scheme version must all fail; keys for tuples differing in hash, MIME type or file name (also names differing only in ASCII case or surrounding blanks) differ. (2) group images: prepare_group_image_for_upload (v2) decrypts with the published seed and nonce to the same pixels, single-bit changes of ciphertext / seed / nonce / hash fail (with and without the pinned hash); hand-built v1 blobs decrypt through the fallback and not with another key; (3) in a real two-member group (memory / SQLite) the image is set at creation or not and replaced one to three times through update_group_data: after every step, and after a restart, both members decrypt the current blob with the hash, seed and nonce their stored group record publishes. Non-trivial = a decryption at another epoch than the sending one, a listed excuse, or a tamper attempt; distinct = distinct cases".into(),
         assumptions: vec![
             "the expected plaintext is what the sender itself decrypts right after encrypting (images are sanitised by the library), cross-checked against the published hash".into(),
             "payload sizes are bounded (quick 200 KB, thorough 2 MB) to keep the case rate up".into(),
@@ -439,6 +518,8 @@ pub fn main(args: &Args) -> i32 {
                     .prop_map(|(setup, before, file, sender, between, tamper)| Case::Shared { setup, before, file, sender, between, tamper }),
                 1 => (any::<u8>(), any::<u8>(), any::<u8>(), prop::collection::vec(any::<u16>(), 0..12), prop::bool::weighted(0.3))
                     .prop_map(|(w, h, seed, tamper, v1)| Case::GroupImage { w, h, seed, tamper, v1 }),
+                1 => (any::<bool>(), any::<bool>(), any::<bool>(), 1u8..4, any::<bool>())
+                    .prop_map(|(admin_sql, member_sql, with_initial, replacements, restart)| Case::GroupImageInGroup { admin_sql, member_sql, with_initial, replacements, restart }),
             ]
         },
         exec,
